@@ -273,7 +273,7 @@ func checkC13(c *Ctx) {
 		ok := false
 		if j != nil && calleeID(&j.Call) == "bytes.Join" {
 			sep := newBigEnv(bc, nil).bytesOf(j.Call.Args[1], j).String()
-			ok = sep == "conv(const:\"\":string)" || strings.Contains(sep, "\"\"")
+			ok = sep == "conv(const:\"\":string)" || strings.Contains(sep, "\"\"") || isNilConst(j.Call.Args[1]) || strings.HasPrefix(sep, "const:nil")
 			// s[index] = pBytes[index]
 			okCopy := false
 			instrsOf(bc, func(_ *ssa.BasicBlock, in ssa.Instruction) {
